@@ -182,13 +182,20 @@ def _arrs(p):
     return [np.array(getattr(p, a), dtype=float).copy() for a in ('x', 'y', 'y1', 'y2', 'mp') if hasattr(p, a)]
 
 
+_RECALL_N = [0]
+
+
 def recall_check(prop, sc, fname, **kw):
     """the profile returned by one call is the caller's own object: scaling / adding to it in place must
     not influence what a later identical call returns (a result cache that hands out its own entry
-    would). Pair form and list form."""
+    would). Pair form and list form. The trains are shifted by an amount unique to this call
+    (k·2^-12, exact), so that the first call is the first one ever made with these arguments."""
     fn = getattr(spk, fname)
     for form in ('pair', 'list'):
-        mkargs = (lambda: [mk(sc['trains'][0]), mk(sc['trains'][1])]) if form == 'pair' else (lambda: [mkl(sc)])
+        _RECALL_N[0] += 1
+        off = Fr(_RECALL_N[0] % 4000 + 1, 4096)
+        shifted = [([x + off for x in s_], a_ + off, b_ + off) for s_, a_, b_ in sc['trains']]
+        mkargs = (lambda: [mk(shifted[0]), mk(shifted[1])]) if form == 'pair' else (lambda: [[mk(t) for t in shifted]])
         p1 = quiet(fn, *mkargs(), **kw)
         ref = _arrs(p1)
         quiet(p1.mul_scalar, 3.0)
@@ -808,6 +815,21 @@ def o_C16(sc):
         return 'C16 enlarging max_tau from %s to %s removes a coincidence' % (t1, t2)
     if np.any(np.abs(pn.y) < np.abs(p2.y)):
         return 'C16 unbounded window has fewer coincidences than max_tau=%s' % t2
+    # max_tau handed over as a numpy scalar object (0-d array), re-used for several calls: it is an
+    # argument like any other — never modified, and every call sees the same bound
+    mobj = np.array(float(t1))
+    for fname, k_ in (('spike_directionality_values', {}), ('spike_directionality', {'normalize': False}),
+                      ('spike_directionality_matrix', {'normalize': False}), ('spike_sync', {}), ('spike_train_order', {})):
+        fn = getattr(spk, fname)
+        args = (L,) if fname not in ('spike_directionality',) else (a, b)
+        ref = quiet(fn, *args, max_tau=float(t1), **k_, **kw)
+        for rep in range(2):
+            got = quiet(fn, *args, max_tau=mobj, **k_, **kw)
+            if float(mobj) != float(t1):
+                return 'C16 %s modified the max_tau object passed to it (%r -> %r)' % (fname, float(t1), float(mobj))
+            same = all(aeq(x_, y_) for x_, y_ in zip(ref, got)) if isinstance(ref, list) else aeq(ref, got)
+            if not same:
+                return 'C16 %s with max_tau given as a numpy scalar object differs from the float form (call %d)' % (fname, rep + 1)
     return None
 
 
@@ -1050,21 +1072,45 @@ def o_C20(sc):
     exp = sorted(float(x) for s, _, _ in sc['trains'] for x in s)
     if list(m.spikes) != exp or m.t_start != float(ts) or m.t_end != float(te):
         return 'C20 merge: got %s on [%r,%r], expected %s' % (list(m.spikes), m.t_start, m.t_end, exp)
+    # an empty first train with edges of its own: the result lies on THAT train's interval and
+    # contains every spike of the others
+    e0 = SpikeTrain(np.array([], dtype=float), [float(ts) - 1.0, float(te) + 2.0])
+    m2 = quiet(spk.merge_spike_trains, [e0] + L)
+    if list(m2.spikes) != exp or m2.t_start != float(ts) - 1.0 or m2.t_end != float(te) + 2.0:
+        return 'C20 merge with an empty first train on [%r,%r]: got %s on [%r,%r], expected %s on the first train\'s interval' % (
+            float(ts) - 1.0, float(te) + 2.0, list(m2.spikes), m2.t_start, m2.t_end, exp)
     n = sc.get('bins', 4)
     T = float(te - ts)
     bs = T / n
-    if int(T / bs) == n:
-        h = quiet(spk.psth, L, bs)
+
+    def psth_ok(LL, a, b, tag):
+        TT = b - a
+        nb = int(TT / bs)
+        h = quiet(spk.psth, LL, bs)
         w = np.diff(h.x)
-        if len(h.y) != n or h.x[0] != float(ts) or h.x[-1] != float(te) or not aeq(w, np.full(n, T / n), 1e-12):
-            return 'C20 psth bins are not %d equal bins over the recording' % n
-        for k in range(n):
+        if len(h.y) != nb or h.x[0] != a or h.x[-1] != b or not aeq(w, np.full(nb, TT / nb), 1e-12):
+            return 'C20 psth%s: bins are not %d equal bins over the recording [%r,%r] (axis %s)' % (tag, nb, a, b, list(h.x))
+        inside = [x for x in exp if a <= x <= b]
+        for k in range(nb):
             lo, hi = h.x[k], h.x[k + 1]
-            c = sum(1 for x in exp if (lo <= x < hi) or (k == n - 1 and x == hi))
+            c = sum(1 for x in inside if (lo <= x < hi) or (k == nb - 1 and x == hi))
             if h.y[k] != c:
-                return 'C20 psth bin %d counts %r, %d spikes fall into it' % (k, h.y[k], c)
-        if sum(h.y) != sum(1 for x in exp if float(ts) <= x <= float(te)):
-            return 'C20 psth counts do not sum to the number of spikes'
+                return 'C20 psth%s bin %d counts %r, %d spikes fall into it' % (tag, k, h.y[k], c)
+        if sum(h.y) != len(inside):
+            return 'C20 psth%s counts do not sum to the number of spikes' % tag
+        return None
+    if int(T / bs) == n:
+        r = psth_ok(L, float(ts), float(te), '')
+        if r:
+            return r
+        # a second recording with the same start and bin size but a later end (same number of bins):
+        # nothing may be carried over from the previous call
+        te2 = float(te) + bs / 2
+        if int((te2 - float(ts)) / bs) == n:
+            L2 = [SpikeTrain(np.array(t.spikes, dtype=float), [float(ts), te2]) for t in L]
+            r = psth_ok(L2, float(ts), te2, ' (second call, later t_end)') or psth_ok(L, float(ts), float(te), ' (third call, first recording again)')
+            if r:
+                return r
     # generated Poisson trains (real generator, seeded from the scenario): sorted, inside, edges carried;
     # low expected counts make the top-up loop of the generator run
     st = np.random.get_state()
